@@ -660,7 +660,8 @@ fn gen_control(ctx: &Ctx, emit: &mut dyn FnMut(String)) {
     let per = |n: u64| -> u64 { ((n + ctx.nshards - 1) / ctx.nshards).max(1) };
     let nseq = per(if quick { 800 } else { 16000 });
     for _ in 0..nseq {
-        let n = rng.range(1, 40) as usize;
+        // one history in fifteen is long (around the depths a fixed-size queue would have): a batch may then hold hundreds of lines
+        let n = if rng.chance(1, 15) { *rng.pick(&[63usize, 64, 65, 127, 128, 129, 255, 256, 257, 600]) } else { rng.range(1, 40) as usize };
         let mut lines: Vec<String> = Vec::new();
         let porty = rng.chance(1, 4);
         let other = rng.u8();
